@@ -1,11 +1,12 @@
 (* C18 — the default module configuration exposes nothing of the host and runs reproducibly.
    Only statements, `exact <lemma>` and Print Assumptions live here.
-   [mk_ctx] follows moduleConfig.toSysContext and internal/sys.NewContext; [wasi_step]/[trace] give the WASI calls
-   (clock_time_get, clock_res_get, random_get, args/environ sizes+get, fd_read, fd_write, fd_prestat_get,
-   fd_fdstat_get, poll_oneoff with a clock subscription, sched_yield, path_open) their trace over a context;
+   [mk_ctx] follows moduleConfig.toSysContext and internal/sys.NewContext; [wasi_step]/[trace] give ALL 46 functions of
+   wasi_snapshot_preview1 (type [call]: args, environ, clock, random_get, every fd_ and path_ function, poll_oneoff,
+   proc_exit, proc_raise, sched_yield, the four sock_ functions) their trace over a context, including the descriptor table
+   ([c_fds]) and the exit state; the theorems quantify over all sequences of these calls;
    [R] is the byte stream of the fixed-seed random source (abstract: the theorems hold for every stream).
    Constants (fake epoch, 1 ms step, clock ids, errno values) are coq/Gen values folded from the working tree. *)
-From Verif Require Import Lib.GoInt Gen.GenC18Platform Gen.GenC18Wasip1 Sys.DefaultCtx Proofs.DefaultCtxP.
+From Verif Require Import Lib.GoInt Gen.GenC18Platform Gen.GenC18Sys Gen.GenC18Wasip1 Sys.DefaultCtx Proofs.DefaultCtxP.
 Open Scope Z_scope.
 
 (* the context built for wazero.NewModuleConfig() does not depend on the host process at all: arguments, environment,
@@ -45,26 +46,54 @@ Theorem C18_fresh_per_instance : forall R n sched i h, (i < n)%nat ->
 Proof. exact fresh_per_instance. Qed.
 Print Assumptions C18_fresh_per_instance.
 
-(* after any calls, of which kw read the realtime clock and km the monotonic clock, the next readings are
-   2022-01-01T00:00:00Z + kw ms and km ms (as 8 little-endian bytes), as long as the int64 counter does not overflow *)
+(* after any calls (the instance not having exited), of which kw read the realtime clock and km the monotonic clock, the
+   next readings are 2022-01-01T00:00:00Z + kw ms and km ms (as 8 little-endian bytes), as long as the int64 counter does
+   not overflow.  The wall clock is read by clock_time_get and by fd_/path_filestat_set_times with a "now" flag (the
+   former only on an open descriptor): [count] threads the descriptor table through the calls *)
 Theorem C18_clock_values : forall R ks p,
   let c := final R default_ctx ks in
-  let kw := count reads_wall ks in let km := count reads_mono ks in
+  let kw := count reads_wall (Some [0; 1; 2]) ks in let km := count reads_mono (Some [0; 1; 2]) ks in
+  tbl_after ks <> None ->
   fake_epoch + kw * ms < 2 ^ 63 -> km * ms < 2 ^ 63 ->
   snd (wasi_step R c (ClockTimeGet ClockIDRealtime p)) = (0, le_bytes 8 (1640995200 * 10 ^ 9 + kw * 10 ^ 6)) /\
   snd (wasi_step R c (ClockTimeGet ClockIDMonotonic p)) = (0, le_bytes 8 (km * 10 ^ 6)).
 Proof. exact clock_values. Qed.
 Print Assumptions C18_clock_values.
 
-(* poll_oneoff with ANY list of subscriptions: when the call succeeds it reports one event per subscription — first
-   those answered at once (clocks, fd_write, fd_read on a descriptor that is not open) in subscription order, then the
-   deferred ones (fd_read on an open descriptor) in subscription order — so the event area is a function of the
-   subscription list alone (with C18_trace_reproducible: the same on every host, run and engine) *)
-Theorem C18_poll_events_in_subscription_order : forall nf subs out sl,
-  poll_result nf subs = (0, out, sl) -> subs <> [] ->
-  let evs := map (sub_event nf) (filter (fun s => negb (sub_deferred nf s)) subs) ++
-             map (sub_event nf) (filter (sub_deferred nf) subs) in
+(* the descriptor table evolves as a function of the calls alone: after ANY call sequence the table of a default
+   instance (None once it has exited) is [tbl_after ks], a fold over the calls in which only fd_close and proc_exit act;
+   it only ever holds 0, 1, 2; and it never gains a descriptor (a closed descriptor stays closed; no file, directory or
+   socket of the host is ever opened) *)
+Theorem C18_descriptor_table : forall R ks,
+  ctx_tbl (final R default_ctx ks) = tbl_after ks /\
+  (forall fds, tbl_after ks = Some fds -> forall x, In x fds -> x = 0 \/ x = 1 \/ x = 2) /\
+  (forall ks' fds fds', tbl_after ks = Some fds -> tbl_after (ks ++ ks') = Some fds' -> forall x, In x fds' -> In x fds).
+Proof. exact table_function_of_calls. Qed.
+Print Assumptions C18_descriptor_table.
+
+(* no call of a default instance, after any history, falls outside the model: the answer is never the marker the model
+   gives for descriptors it does not describe (pre-opened directories, sockets, host-backed stdio) — there are none *)
+Theorem C18_model_total : forall R ks k, ascii_call k = true ->
+  fst (snd (wasi_step R (final R default_ctx ks) k)) <> res_unmodelled.
+Proof. exact default_total. Qed.
+Print Assumptions C18_model_total.
+
+(* poll_oneoff with ANY list of subscriptions over ANY descriptor table: when the call succeeds it reports one event per
+   subscription — first those answered at once (clocks, fd_write, fd_read on a descriptor that is not open) in
+   subscription order, then the deferred ones (fd_read on an open descriptor) in subscription order — so the event area
+   is a function of the subscription list and the table alone (with C18_trace_reproducible and C18_descriptor_table: the
+   same on every host, run and engine) *)
+Theorem C18_poll_events_in_subscription_order : forall opn subs out sl,
+  poll_result opn subs = (0, out, sl) -> subs <> [] ->
+  let evs := map (sub_event opn) (filter (fun s => negb (sub_deferred opn s)) subs) ++
+             map (sub_event opn) (filter (sub_deferred opn) subs) in
   length evs = length subs /\
   out = le_bytes 4 (Z.of_nat (length subs)) ++ concat evs ++ repeat 0 (32 * length subs - length (concat evs))%nat.
 Proof. exact poll_events_in_subscription_order. Qed.
 Print Assumptions C18_poll_events_in_subscription_order.
+
+(* ... and when a deferred subscription exists but stdin itself has been closed, the call fails *)
+Theorem C18_poll_stdin_closed : forall opn subs,
+  opn FdStdin = false -> existsb (sub_deferred opn) subs = true -> fst (fst (poll_result opn subs)) <> 0.
+Proof. exact poll_stdin_closed. Qed.
+Print Assumptions C18_poll_stdin_closed.
